@@ -23,7 +23,7 @@ fn target(r: &mut Rng) -> Vec<(u64, u64)> {
             if pos < base || (pos - base) >= (1u64 << 32) - 1000 {
                 break;
             }
-            let len = *r.pick(&[1u64, 1, 2, 3, 64, 500]);
+            let len = *r.pick(&[1u64, 1, 2, 3, 64, 500, 4097, 5000]);
             if (pos - base) + len >= (1u64 << 32) {
                 break;
             }
@@ -190,9 +190,17 @@ pub fn gen_case(r: &mut Rng, out: &mut String) {
     writeln!(out, "expect true").unwrap();
     writeln!(out, "tdump t0").unwrap();
     writeln!(out, "tdump t1").unwrap();
-    if let Some(&(s, _)) = tg.first() {
-        writeln!(out, "tremove t1 {}", s).unwrap();
+    // a one-element difference must be visible wherever it sits (smallest / largest value, one value above the maximum)
+    if let (Some(&(s, _)), Some(&(ls, ll))) = (tg.first(), tg.last()) {
+        let last = ls + ll - 1;
+        match r.below(4) {
+            0 => writeln!(out, "tremove t1 {}", s).unwrap(),
+            1 | 2 => writeln!(out, "tremove t1 {}", last).unwrap(),
+            _ => writeln!(out, "tinsert t1 {}", last.saturating_add(1)).unwrap(),
+        }
         writeln!(out, "teq t0 t1").unwrap();
+        writeln!(out, "expect false").unwrap();
+        writeln!(out, "teq t1 t0").unwrap();
         writeln!(out, "expect false").unwrap();
     }
 }
